@@ -107,18 +107,9 @@ class Gen:
         dests = self.dests()
         if not dests:
             return
-        self.n += 1
-        dst = self.rng.choice(dests)
-        src = '%s/TEST-%d-%s' % (self.rng.choice(PREFIXES), self.n,
-                                 self.rng.choice(['a', 'fix.1', 'x_y']))
-        files = None
-        if self.rng.random() < self.p['p_conflict']:
-            files = {'shared.txt': 'line\n' * 2 + 'changed by %s\n' % src +
-                     'line\n' * 2}
-        pr = self.w.do('open_pr', src=src, dst=dst, files=files)
-        self.prs.append({'id': pr, 'src': src, 'dst': dst})
-        if self.rng.random() < 0.7:
-            self.run('pr', pr)
+        self.new_pr(self.rng.choice(dests),
+                    conflict=self.rng.random() < self.p['p_conflict'],
+                    evaluate=self.rng.random() < 0.7)
 
     def _pick_pr(self):
         return self.rng.choice(self.prs) if self.prs else None
@@ -238,21 +229,31 @@ class Gen:
             self.w.do('manual_commit', branch=self.rng.choice(ws))
 
     # -- directed move: push one PR forward ------------------------------------
-    def m_forward(self):
-        pr = self._pick_pr()
+    def m_forward(self, pr=None, rounds=None):
+        pr = pr or self._pick_pr()
         if not pr:
             return self.m_open_pr()
+        rounds = rounds or self.rng.choice([1, 2, 3, 4])
+        for _ in range(rounds):
+            if not self.forward_once(pr):
+                break
+
+    def forward_once(self, pr):
+        """evaluate, then do what a cooperative team / CI would do next.
+        Returns False when the PR is finished or stuck."""
         rec = self.run('pr', pr['id'])
         st = rec['status']
         if st in ('BuildNotStarted', 'BuildInProgress', 'BuildFailed'):
             for t in self.interesting_tips(pr):
                 if t.endswith(pr['src']) and not t.startswith('tip:q/'):
                     self.w.do('set_status', ref=t, state=self.status_value())
-            self.run('pr', pr['id'])
-        elif st == 'ApprovalRequired':
+            return True
+        if st == 'ApprovalRequired':
             for u in (AUTHOR, PEER1, PEER2, LEAD):
                 self.w.do('approve', pr=pr['id'], user=u)
-        elif st in ('Queued', 'NothingToDo', 'QueueBuildFailed'):
+            return True
+        if st in ('Queued', 'QueueBuildFailed') or \
+                (st == 'NothingToDo' and self.queued()):
             heads = self.w.refs()[0]
             qw = [b for b in sorted(heads) if b.startswith('q/w/')]
             for b in qw:
@@ -261,14 +262,95 @@ class Gen:
                               state=self.status_value())
             if qw:
                 self.run('commit', 'tip:' + self.rng.choice(qw))
-        elif st in ('Conflict', 'BranchHistoryMismatch', 'QueueConflict'):
+            return False
+        if st in ('Conflict', 'BranchHistoryMismatch', 'QueueConflict'):
             if self.rng.random() < 0.5:
                 self.w.do('comment', pr=pr['id'], user=AUTHOR, text='/reset')
             else:
                 self.w.do('decline', pr=pr['id'])
             self.run('pr', pr['id'])
-        elif st in ('QueueOutOfOrder', 'IncoherentQueues'):
+            return False
+        if st in ('QueueOutOfOrder', 'IncoherentQueues'):
             self.run('rebuild_queues')
+            return True
+        if st in ('RequestIntegrationBranches',):
+            self.w.do('comment', pr=pr['id'], user=AUTHOR,
+                      text='/create_integration_branches')
+            return True
+        return False
+
+    def queued(self):
+        return any(b.startswith('q/w/') for b in self.w.refs()[0])
+
+    # -- directed openers (prefixes that reach rarely sampled regions) ---------
+    def new_pr(self, dst, conflict=False, evaluate=True):
+        self.n += 1
+        src = '%s/TEST-%d-%s' % (self.rng.choice(PREFIXES), self.n,
+                                 self.rng.choice(['a', 'fix.1', 'x_y']))
+        files = None
+        if conflict:
+            files = {'shared.txt': 'line\n' * 2 + 'changed by %s\n' % src +
+                     'line\n' * 2}
+        pr = self.w.do('open_pr', src=src, dst=dst, files=files)
+        d = {'id': pr, 'src': src, 'dst': dst}
+        self.prs.append(d)
+        if evaluate:
+            self.run('pr', pr)
+        return d
+
+    def op_two_prs_same_base(self):
+        """two PRs branched from the same destination tip, both pushed to
+        merge one after the other (the second one then needs real merge
+        commits on every target)"""
+        dests = [d for d in self.dests() if not d.startswith('hotfix/')]
+        dst = dests[0] if self.rng.random() < 0.7 else self.rng.choice(dests)
+        a = self.new_pr(dst)
+        b = self.new_pr(dst)
+        self.m_forward(a, 4)
+        self.m_forward(b, 4)
+
+    def op_stab_between_devs(self):
+        dests = self.dests()
+        stabs = [d for d in dests if d.startswith('stabilization/')]
+        devs = [d for d in dests if d.startswith('development/')]
+        if not stabs:
+            return self.op_two_prs_same_base()
+        a = self.new_pr(devs[0])
+        b = self.new_pr(self.rng.choice(stabs))
+        c = self.new_pr(devs[-1])
+        for pr in (a, b, c):
+            self.m_forward(pr, 3)
+
+    def op_three_queued(self):
+        """queue several PRs before any queue build is reported"""
+        dests = [d for d in self.dests()]
+        prs = [self.new_pr(self.rng.choice(dests)) for _ in range(3)]
+        for pr in prs:
+            for _ in range(2):
+                rec = self.run('pr', pr['id'])
+                if rec['status'].startswith('Build'):
+                    for t in self.interesting_tips(pr):
+                        if t.endswith(pr['src']) and \
+                                not t.startswith('tip:q/'):
+                            self.w.do('set_status', ref=t,
+                                      state='SUCCESSFUL')
+        heads = self.w.refs()[0]
+        for b in sorted(heads):
+            if b.startswith('q/w/'):
+                self.w.do('set_status', ref='tip:' + b,
+                          state=self.status_value())
+        qw = [b for b in sorted(heads) if b.startswith('q/w/')]
+        if qw:
+            self.run('commit', 'tip:' + self.rng.choice(qw))
+
+    def op_dest_moves_while_open(self):
+        """a PR is opened, then another one is merged under it"""
+        dests = [d for d in self.dests() if not d.startswith('hotfix/')]
+        a = self.new_pr(dests[0])
+        self.forward_once(a)
+        b = self.new_pr(self.rng.choice(dests))
+        self.m_forward(b, 4)
+        self.m_forward(a, 4)
 
     def step(self):
         if self.rng.random() < self.p['p_forward']:
@@ -283,3 +365,11 @@ class Gen:
         while self.njobs < max_jobs and steps < max_steps:
             steps += 1
             self.step()
+
+
+OPENERS = {
+    'two_prs_same_base': Gen.op_two_prs_same_base,
+    'stab_between_devs': Gen.op_stab_between_devs,
+    'three_queued': Gen.op_three_queued,
+    'dest_moves_while_open': Gen.op_dest_moves_while_open,
+}
